@@ -73,12 +73,17 @@ def irStr (f : FieldRec) : String :=
   s!"req={b f.required} nullable={n} hd={b f.hasDefault} thn={b f.typeHasNull} sdn={b f.stripDefaultNone} dio={b f.dataTypeIsOptional} cons={c} alias={b f.hasAlias}"
 
 def handlers : List (String × Handler) := [
-  ("field.render", fun args => match vec? args with
+  ("field.render", fun args =>
+    -- an optional 11th argument: use_generic_container_types
+    let (args, ug) := match args with
+      | [k, n, r, d, t, c, o, via, name, sc, ug] => ([k, n, r, d, t, c, o, via, name, sc], ug.bool?.getD false)
+      | _ => (args, false)
+    match vec? args with
     | some v =>
       if !v.valid then "invalid"
       else
         let key := match sortKey v.kind (fromSchema v) with | none => "-" | some x => b x
-        "ok " ++ irStr (fromSchema v) ++ " key=" ++ key ++ " | " ++ shapeStr (render v) ++ " | " ++ semStr (sem v)
+        "ok " ++ irStr (fromSchema v) ++ " key=" ++ key ++ " | " ++ shapeStr (render v) ++ " | " ++ semStr (semG v ug)
     | none => "err args"),
   ("field.templateok", fun
     | [k] => match kind? k with
